@@ -82,6 +82,27 @@ func DrawConfig(r *Rng, o *Opts) Config {
 	if c.Fillers > maxF {
 		c.Fillers = maxF
 	}
+	// in a third of the cases the registry starts a few types below a 64-ID boundary and grows across it
+	// during the history
+	if r.Chance(33) {
+		c.Late = 4 + r.Intn(8)
+		var starts []int
+		for _, b := range []int{64, 128, 192, 256} {
+			if b <= o.MaxComponents {
+				starts = append(starts, b-u.N-c.Late/2)
+			}
+		}
+		c.Fillers = starts[r.Intn(len(starts))]
+		if c.Fillers < 0 {
+			c.Fillers = 0
+		}
+		if c.Fillers+u.N+c.Late > o.MaxComponents {
+			c.Late = o.MaxComponents - c.Fillers - u.N
+			if o.Avoid["F4"] && c.Late > 0 {
+				c.Late--
+			}
+		}
+	}
 	c.Perm = r.Perm(u.N)
 	return c
 }
@@ -140,6 +161,7 @@ func RunCase(seed uint64, idx int, p *Profile, o *Opts, st *Stats) (cr *CaseResu
 		pp.DetShrink = true
 	}
 	g := NewGen(r, m, &pp)
+	g.LateLeft = cfg.Late
 	nops := o.MinOps
 	if o.MaxOps > o.MinOps {
 		nops += r.Intn(o.MaxOps - o.MinOps + 1)
@@ -609,6 +631,7 @@ func BuildFrozen(seed uint64, idx int, p *Profile, o *Opts, nops int) (*Drv, *Mo
 	pp := *p
 	pp.Avoid = o.Avoid
 	g := NewGen(r, m, &pp)
+	g.LateLeft = cfg.Late
 	for i := 0; i < nops; i++ {
 		op := g.Next()
 		x := m.Plan(op)
